@@ -45,6 +45,7 @@ type HTTPReverseProxyOptions struct {
 type HTTPReverseProxy struct {
 	proxy       http.Handler
 	vhostRouter *Routers
+	transport   *http.Transport
 
 	responseHeaderTimeout time.Duration
 }
@@ -140,6 +141,7 @@ func NewHTTPReverseProxy(option HTTPReverseProxyOptions, vhostRouter *Routers) *
 			_, _ = rw.Write(getNotFoundPageContent())
 		},
 	}
+	rp.transport = proxy.Transport.(*http.Transport)
 	rp.proxy = h2c.NewHandler(proxy, &http2.Server{})
 	return rp
 }
@@ -157,6 +159,9 @@ func (rp *HTTPReverseProxy) Register(routeCfg RouteConfig) error {
 // UnRegister unregister route config by domain and location
 func (rp *HTTPReverseProxy) UnRegister(routeCfg RouteConfig) {
 	rp.vhostRouter.Del(routeCfg.Domain, routeCfg.Location, routeCfg.RouteByHTTPUser)
+	// Idle backend connections are pooled by route, not by owner: drop them so that the next
+	// request for this route can't be sent to the proxy that just gave the route up.
+	rp.transport.CloseIdleConnections()
 }
 
 func (rp *HTTPReverseProxy) GetRouteConfig(domain, location, routeByHTTPUser string) *RouteConfig {
